@@ -404,7 +404,8 @@ theorem ordering_add_detached {o : BOrd} {cs : Chains} (b : Nat) (bs : List Nat)
 theorem ordering_refusals {o : BOrd} {cs : Chains} (h : Repr o cs) (after : Option Nat)
     (bs : List Nat) :
     ((∃ x ∈ bs, x ∈ cs.flatten) → o.primitiveInsert after bs = .error .valueError) ∧
-    ((∀ x ∈ bs, x ∉ cs.flatten) → ∀ a, after = some a → a ∉ cs.flatten →
+    (¬ bs.Nodup → o.primitiveInsert after bs = .error .valueError) ∧
+    ((∀ x ∈ bs, x ∉ cs.flatten) → bs.Nodup → ∀ a, after = some a → a ∉ cs.flatten →
       o.primitiveInsert after bs = .error .keyError) :=
   insert_refusals h after bs
 
